@@ -22,6 +22,10 @@ def run(tier: str) -> int:
     # EXTENSION beyond C04's domain: a channel-02 line (time signature of one measure); rejections are observations
     for i, sc in enumerate(scns[: (300 if tier == "quick" else 3000)]):
         scns.append(dict(sc, id=f"x{i}", ext=True, sigs=[{"m": i % 2, "f1000": [750, 500, 1500][i % 3]}]))
+    # files whose measure 0 holds a mid-measure tempo change and, later in file order, an override of #BPM at its start
+    plain = [sc for sc in scns if not sc.get("ext") and not any(ln["ch"] in ("03", "08") for ln in sc["file"]["lines"])]
+    for i, sc in enumerate(plain[: (150 if tier == "quick" else 1500)]):
+        scns.append(dict(sc, id=f"o{i}", override=True, variant=6 * i))       # variant % 6 == 0: file order kept, lines not merged
     recs = pmap(drv.exec_bms, scns)
     recs += pmap(drv.exec_bundled, drv.bundled_scenarios(tier), chunk=1)
     rejects, consumed, wall = validate_traces("BMSTrace", "BMSTrace", recs, tag=f"c04-{tier}")
